@@ -18,6 +18,15 @@ Theorem C16_sound : forall pick f,
 Proof. exact sound. Qed.
 Print Assumptions C16_sound.
 
+(* ... and what was applied is usable: a request for any dispatch policy finds it, the policy's upstream subset
+   resolves (by exact endpoint string, as the data plane looks it up) to at least one endpoint of the ClusterInfo,
+   and a flow-control schema the policy names is in force instead of the system default *)
+Theorem C16_sound_usable : forall pick f,
+  oracle_laws f = true -> validate pick f = VErrs [] ->
+  exists l, policy_views f = Some l /\ forall2b policy_usable (f_policies f) l = true.
+Proof. exact sound_usable. Qed.
+Print Assumptions C16_sound_usable.
+
 (* every object with one of the breaking features named by the property is rejected *)
 Theorem C16_rejects : forall fixd pick f, breaking f = true -> validate_gen fixd pick f <> VErrs [].
 Proof. exact rejects. Qed.
